@@ -31,6 +31,10 @@ type cscenario struct {
 // measured sizes (schedules): c2|a2 112k, c2|a-in,a-above 46k unbounded; c2|a2/pre1 20k with <=5 preemptions,
 // ~3.5M unbounded (c2|a-hi,a-lo alike); the 3-thread scenarios 0.5k-82k with <=3 preemptions.
 var cscenarios = []cscenario{
+	// two writers of the queue-wide acknowledged position (each Sync stores the minimum group ack it saw); the group
+	// itself is acknowledged by one thread only (a consumer group has one acknowledging owner)
+	{"a,a,sync|sync", 3, 2, -1, [][]string{{"ack:0", "ack:1", "sync"}, {"sync"}}, 2, 4},
+	{"a,sync,a,sync|sync", 3, 2, -1, [][]string{{"ack:0", "sync", "ack:1", "sync"}, {"sync"}}, 2, 3},
 	{"c|a|sync", 3, 1, -1, [][]string{{"consume"}, {"ack:0"}, {"sync"}}, 3, 5},
 	{"c|c|put", 1, 0, -1, [][]string{{"consume"}, {"consume"}, {"put"}}, 3, 4},
 	{"c|a2|sync,gc", 3, 2, 0, [][]string{{"consume"}, {"ack:1", "ack:2"}, {"sync", "gc"}}, 3, 4},
